@@ -1,6 +1,6 @@
 CONSTANTS Carriers = {"vps"} Vals = {"a", "b"} Labels = {"p"} Times = {} Bads = {}
-  WssWords = {"x", "y"} MaxRecv = 9 UnknownOnce = TRUE XdsGuard = TRUE Calls = {}
-  Handlers = {"h1", "h2"} InitMasks = {{"NETWORK", "NETWORK_ID", "PROG_ID", "LOCAL_TIME", "ASPECT", "TTX_PAGE", "CAPTION"}, {"NETWORK", "TTX_PAGE"}} RegMasks = {{"ASPECT"}, {"PROG_INFO", "TTX_PAGE"}} Apis = {"reg"} MaxReg = 2 CdLen = 40 IdleSteps = {} MaxGap = 0 MaxIdle = 0
+  WssWords = {"x", "y"} MaxRecv = 8 UnknownOnce = TRUE XdsGuard = TRUE Calls = {}
+  Handlers = {"h1"} InitMasks = {{"NETWORK", "NETWORK_ID", "PROG_ID", "LOCAL_TIME", "ASPECT", "TTX_PAGE", "CAPTION"}} RegMasks = {} Apis = {"reg"} MaxReg = 0 CdLen = 40 IdleSteps = {36, 40} MaxGap = 1 MaxIdle = 1
 SPECIFICATION GSpec
 VIEW gview
 INVARIANTS Dump TypeOK Faithful
